@@ -11,6 +11,7 @@ structure CrashSt where
   members : List (Nat × Bool) := []   -- epoch ↦ is this node in the epoch's group
   lastEp : Nat := 0
   running : Bool := false             -- a beacon handler exists (the chain store is open)
+  dedupe : Bool := true               -- sampled modes: second-level images once per distinct (record, group, share) of an op
   hasBp : Bool := false
   deriving Inhabited
 
@@ -80,25 +81,6 @@ def opLabel : Op → String
 def className : TornClass → String
   | .bad => "bad" | .panics => "panics" | .same => "same" | .accepted => "accepted"
 
-/-- all crash images of `ops` from `d`, labelled like the harness labels them -/
-def labelledCuts (member : Nat → Bool) (d : Disk) (ops : List Op) : List String :=
-  (crashImages d ops).flatMap fun (c, img) =>
-    let rc := showRec (recover asIs member img)
-    match c with
-    | .after 0 => [s!"start;{rc}"]
-    | .after (k + 1) =>
-      match ops[k]? with
-      | some (.saveFinished e) =>
-        -- the harness also reports the image one bbolt commit back (= the image before the call)
-        let before := run d (ops.take k)
-        [s!"SaveFinished~rollback;{showRec (recover asIs member before)}", s!"{opLabel (.saveFinished e)};{rc}"]
-      | some op => [s!"{opLabel op};{rc}"]
-      | none => []
-    | .during k cl =>
-      match ops[k]? with
-      | some op => [s!"{opLabel op}@{className cl};{rc}"]
-      | none => []
-
 /-- the steps an observer of the directory can see: removing a file that is not there leaves no trace (`os.RemoveAll`
 of a missing path succeeds silently; the harness reconstructs the steps from the inotify event stream) -/
 def observable (d : Disk) : List Op → List Op
@@ -108,6 +90,74 @@ def observable (d : Disk) : List Op → List Op
       | .remove f => d.getFile f != .absent
       | _ => true
     (if keep then [op] else []) ++ observable (apply d op) rest
+
+/-- the key-file steps of the start-up path itself on disk `d` (the variant the tree under test has) -/
+def startupOps (member : Nat → Bool) (d : Disk) : List Op :=
+  match codeStartup with
+  | .asIs => []
+  | .reconcile m => reconcileOps m member d
+
+/-- what a restart finds in image `d`, as the harness reports it: the database records as the crash left them, the key
+files and the outcome once the start-up path has run to its end; `pre=` what the key files were before, if start-up
+changed them; `r2=` if start-up wrote key files: its own steps, and (for `expand`) every crash image of those steps
+recovered again — a restart killed while it reconciles, then restarted -/
+def showRecAt (member : Nat → Bool) (d : Disk) (expand : Bool) (chain : String := "") : String :=
+  let r := recover codeStartup member d
+  let g0 := loadFile d.group
+  let s0 := loadFile d.share
+  let pre := if r.group != g0 || r.share != s0 then s!";pre={showLoaded g0}/{showLoaded s0}" else ""
+  let ops := observable d (startupOps member d)
+  let item (label : String) (y : Disk) : String :=
+    let r2 := recover codeStartup member y
+    s!"{label}~{showFin r2.fin}~{showLoaded r2.group}~{showLoaded r2.share}~{showOutcome r2.outcome}"
+  let items : List String :=
+    if !expand then [] else
+    (crashImages d ops).flatMap fun (c, y) =>
+      match c with
+      | .after 0 => []
+      | .after (k + 1) => match ops[k]? with | some op => [item (opLabel op) y] | none => []
+      | .during k cl => match ops[k]? with | some op => [item s!"{opLabel op}@{className cl}" y] | none => []
+  let r2 := if ops.isEmpty then "" else ";r2=" ++ "+".intercalate (("trace:" ++ ",".intercalate (ops.map opLabel)) :: items)
+  showRec r ++ chain ++ pre ++ r2
+
+/-- the state by which the sampled modes of the harness decide whether a reconciling start-up is killed step by step -/
+def stateKey (d : Disk) : String :=
+  s!"{showFin d.db.finished}|{showLoaded (loadFile d.group)}|{showLoaded (loadFile d.share)}"
+
+/-- all crash images of `ops` from `d`, labelled like the harness labels them; second-level images (a start-up that writes
+key files, killed at each of its steps) below the whole first-level images — with `dedupe` once per distinct state -/
+def labelledCuts (dedupe : Bool) (member : Nat → Bool) (d : Disk) (ops : List Op) : List String :=
+  let step (acc : List String × List String) (ci : Cut × Disk) : List String × List String :=
+    let (out, seen) := acc
+    let (c, img) := ci
+    let writes := !(observable img (startupOps member img)).isEmpty
+    let show1 (x : Disk) (whole : Bool) (seen : List String) : String × List String :=
+      let w := !(observable x (startupOps member x)).isEmpty
+      let expand := whole && !(dedupe && seen.contains (stateKey x))
+      (showRecAt member x expand, if whole && w && dedupe then stateKey x :: seen else seen)
+    match c with
+    | .after 0 =>
+      let (rc, seen) := show1 img true seen
+      (out ++ [s!"start;{rc}"], seen)
+    | .after (k + 1) =>
+      match ops[k]? with
+      | some (.saveFinished e) =>
+        -- the harness also reports the image one bbolt commit back (= the image before the call)
+        let before := run d (ops.take k)
+        let (rb, seen) := show1 before true seen
+        let (rc, seen) := show1 img true seen
+        (out ++ [s!"SaveFinished~rollback;{rb}", s!"{opLabel (.saveFinished e)};{rc}"], seen)
+      | some op =>
+        let (rc, seen) := show1 img true seen
+        (out ++ [s!"{opLabel op};{rc}"], seen)
+      | none => (out, seen)
+    | .during k cl =>
+      match ops[k]? with
+      | some op =>
+        let _ := writes
+        (out ++ [s!"{opLabel op}@{className cl};{showRecAt member img false}"], seen)
+      | none => (out, seen)
+  ((crashImages d ops).foldl step ([], [])).1
 
 def parseOrder (s : String) : Option (List Stage) :=
   (s.splitOn ",").mapM fun x =>
@@ -129,13 +179,13 @@ def outcomeBoot : Outcome → String
 
 def crashStep (s : CrashSt) (f : List String) : CrashSt × String :=
   match f with
-  | ["init", _, _, _, _] => ({ hasBp := true }, "ok")
+  | ["init", _, _, _, _] => ({ hasBp := true, dedupe := s.dedupe }, "ok")
   | ["staged", st] =>
     match statusName st with
     | none => (s, "bad-op")
     | some name =>
       let ops := stagedOps (s.lastEp + 1) name
-      let cuts := labelledCuts s.member s.disk ops
+      let cuts := labelledCuts s.dedupe s.member s.disk ops
       ({ s with disk := run s.disk ops }, " | ".intercalate ("tx=1" :: cuts))
   | "dkg" :: kind :: members :: _thr :: opts =>
     let me := (members.splitOn ",").contains "0"
@@ -145,7 +195,7 @@ def crashStep (s : CrashSt) (f : List String) : CrashSt × String :=
     if !s.hasBp then (s, "no-node") else
     let order := (opts.filterMap fun o => if o.startsWith "order=" then parseOrder (o.drop 6).toString else none).head?.getD codeOrder
     let ops := observable s.disk (if me then completionOpsIn codeWriteMode order e else evictionOpsIn codeWriteMode order e)
-    let cuts := labelledCuts s1.member s.disk ops
+    let cuts := labelledCuts s.dedupe s1.member s.disk ops
     let trace := ",".intercalate (ops.map opLabel)
     let d' := run s.disk ops
     -- joinNetwork -> StartBeacon -> NewHandler creates the chain store and stores the genesis beacon
@@ -161,7 +211,7 @@ def crashStep (s : CrashSt) (f : List String) : CrashSt × String :=
         let (d, outs) := acc
         let r := (d.chain.getLast?.getD 0) + 1
         let d' := apply d (.boltPut r)
-        let ld (x : Disk) := showOutcome (recover asIs s.member x).outcome
+        let ld (x : Disk) := showOutcome (recover codeStartup s.member x).outcome
         (d', outs ++ [s!"put{r}:tx=1:before\{load={ld d};chain={showChain d.chain}}:after\{load={ld d'};chain={showChain d'.chain}}"])) (s.disk, [])
       ({ s with disk := d }, " | ".intercalate outs)
   | ["stray", which] =>
@@ -171,9 +221,9 @@ def crashStep (s : CrashSt) (f : List String) : CrashSt × String :=
     else if which = "share" then ({ s with disk := s.disk.setFile .shareTmp (.torn s.lastEp .bad) }, "ok")
     else (s, "bad-op")
   | ["load"] =>
-    (s, s!"rest;{showRec (recover asIs s.member s.disk)};chain={showChain s.disk.chain}")
+    (s, s!"rest;{showRecAt s.member s.disk true s!";chain={showChain s.disk.chain}"}")
   | ["restart"] =>
-    let (o, d) := startup s.member s.disk
+    let (o, d) := startup s.member (reconciled codeStartup s.member s.disk)
     let good := o.isOk || o == .fresh
     ({ s with disk := d, running := o.isOk, hasBp := good }, outcomeBoot o)
   | _ => (s, "bad-op")
